@@ -119,3 +119,12 @@ m('fm-send-under-lock', 'R07b', FM,
 				c.mu.Lock()
 				defer c.mu.Unlock()
 				c.containsQueue <- proxyCheck{''')
+m('fm-found-digest-dereferenced', 'R14l', FM,
+  '''			for i := range chunk {
+				if chunk[i] == nil {
+					continue
+				}
+
+				if chunk[i].SizeBytes > c.maxProxyBlobSize {''',
+  '''			for i := range chunk {
+				if chunk[i].SizeBytes > c.maxProxyBlobSize {''')
